@@ -452,6 +452,74 @@ theorem scannerAllT_ok (p : Nat) (tys : List GoTy) (rows : List (List (TypeDesc 
           obtain ⟨h1, h2, h3⟩ := this
           exact ⟨by rw [h1], h2, h3⟩
 
+
+/-! ## MapScan with pointers to the same variables in a new map per row -/
+
+def mapScanAllT (p : Nat) (tys : List GoTy) : Nat → Iter → List GoVal → Option (List (List GoVal) × Iter)
+  | 0, it, _ => some ([], it)
+  | n + 1, it, vals =>
+    match mapScanT p it tys vals with
+    | .row it' vals' =>
+      (match mapScanAllT p tys n it' vals' with
+       | some (l, it'') => some (vals' :: l, it'')
+       | none => none)
+    | .stop it' _ => some ([], it')
+    | _ => none
+
+theorem scanT_md (p : Nat) (it it' : Iter) (tys : List GoTy) (vals vals' : List GoVal)
+    (h : scanT p it tys vals = .row it' vals') : it'.md = it.md := by
+  unfold scanT at h
+  cases hs : scan it (tys.map (fun _ => true)) with
+  | row it1 calls =>
+    rw [hs] at h
+    have hmd : it1.md = it.md := by
+      unfold scan at hs
+      split at hs
+      · simp at hs
+      · split at hs
+        · simp at hs
+        · split at hs
+          · simp at hs
+          · split at hs
+            · simp at hs; rw [← hs.1]
+            · simp at hs
+            · simp at hs
+    simp only at h
+    cases ha : applyCalls p tys calls vals with
+    | ok v => rw [ha] at h; simp at h; rw [← h.1]; exact hmd
+    | err v => rw [ha] at h; simp at h
+    | crash => rw [ha] at h; simp at h
+    | unmodelled => rw [ha] at h; simp at h
+  | stop it1 calls =>
+    rw [hs] at h
+    simp only at h
+    cases ha : applyCalls p tys calls vals <;> rw [ha] at h <;> simp at h
+  | crash => rw [hs] at h; simp at h
+
+/-- when RowData names every destination once, the MapScan loop IS the Scan loop -/
+theorem mapScanAllT_eq (p : Nat) (tys : List GoTy) (names : List FrameRead.Bytes) (n : Nat) (it : Iter) (vals : List GoVal)
+    (hn : rowDataNames it.md.columns = some names) (hl : names.length = tys.length) (hd : names.Nodup) :
+    mapScanAllT p tys n it vals = scanAllT p tys n it vals := by
+  induction n generalizing it vals with
+  | zero => rfl
+  | succ n ih =>
+    unfold mapScanAllT scanAllT
+    by_cases hf : it.failed = true
+    · have hs : scan it (tys.map (fun _ => true)) = .stop it [] := by unfold scan; simp [hf]
+      simp [mapScanT, hf, scanT, hs, applyCalls]
+    · have hf' : it.failed = false := by simpa using hf
+      have hm : mapScanT p it tys vals = scanT p it tys vals := by
+        simp [mapScanT, hf', hn, hl, hd]
+      rw [hm]
+      cases hs : scanT p it tys vals with
+      | row it' vals' =>
+        have hmd := scanT_md p it it' tys vals vals' hs
+        simp only []
+        rw [ih it' vals' (by rw [hmd]; exact hn)]
+      | stop it' v => rfl
+      | crash => rfl
+      | unmodelled => rfl
+
 /-! ## destination types that never fall under the excluded condition -/
 
 /-- Go destination types whose Unmarshal never looks at what the destination holds, whatever the column and the
